@@ -328,8 +328,10 @@ func (fc *FieldCase) rawInput() interface{} {
 			l = append(l, "s"+itoa(n)+"_"+itoa(i))
 		}
 		return l
-	case KA2:
+	case KA2, KPA2:
 		return []interface{}{uint64(10 + n%80), uint64(11 + n%80)}
+	case KMA2:
+		return map[string]interface{}{"p": []interface{}{uint64(10 + n%80), uint64(11 + n%80)}, "q": []interface{}{uint64(12 + n%80), uint64(13 + n%80)}}
 	case KMInt, KMVInt:
 		return map[string]interface{}{"p": uint64(10 + n%80), "q": uint64(11 + n%80)}
 	case KMSlice:
@@ -494,6 +496,10 @@ func (sc *StructCase) prefill(v reflect.Value) {
 			f.Set(reflect.ValueOf([]VInt{1, 2}))
 		case KA2:
 			f.Set(reflect.ValueOf([2]int{1, 2}))
+		case KPA2:
+			f.Set(reflect.ValueOf(&[2]int{1, 2}))
+		case KMA2:
+			f.Set(reflect.ValueOf(map[string][2]int{"p": {1, 2}, "z": {9, 9}}))
 		case KMInt:
 			f.Set(reflect.ValueOf(map[string]int{"p": 1, "z": 9}))
 		case KMVInt:
@@ -791,6 +797,21 @@ func (sc *StructCase) apply(v reflect.Value, present bool) {
 		case KA2:
 			l := ints(in)
 			f.Set(reflect.ValueOf([2]int{l[0], l[1]}))
+		case KPA2:
+			l := ints(in)
+			f.Set(reflect.ValueOf(&[2]int{l[0], l[1]}))
+		case KMA2:
+			m := map[string][2]int{}
+			if !f.IsNil() {
+				for _, k := range f.MapKeys() {
+					m[k.String()] = f.MapIndex(k).Interface().([2]int)
+				}
+			}
+			for k, x := range in.(map[string]interface{}) {
+				l := ints(x)
+				m[k] = [2]int{l[0], l[1]}
+			}
+			f.Set(reflect.ValueOf(m))
 		case KMInt:
 			m := map[string]int{}
 			if !f.IsNil() {
